@@ -1,24 +1,25 @@
 /-
-C08, transcoding chains for the *modelled* codecs: `chain_preserves` instantiated with the CSV and
-JSON result codecs of C07 (Model/CodecResult.lean; round trips `decodeCSV_encodeCSVAll`,
-`Vegeta.Props.C07.json_roundtrip`).  No round-trip hypothesis is left for chains over
-{csv, json}; gob stays outside (its value codec is not modelled — for chains through gob the
-abstract `chain_preserves` with its `RoundTrips` hypothesis applies).
+C08, transcoding chains for the *modelled* codecs: `chain_preserves` instantiated with the gob,
+CSV and JSON result codecs of C07 (Model/GobValue.lean, Model/CodecResult.lean; round trips
+`gob_roundtrip_explicit`, `decodeCSV_encodeCSVAll`, `json_roundtrip`).  No codec hypothesis is left:
+`chain_preserves_all_formats` for chains over {gob, csv, json}, `chain_preserves_csv_json` for the
+sub-family {csv, json} (on the larger domain `ReprBoth`, without gob's size clause).
 -/
 import Vegeta.Proofs.Chain
 import Vegeta.Props.C07
 namespace Vegeta.Props.C08
 open Vegeta.Go Vegeta.Model.DecoderFor Vegeta.Model.Codec Vegeta.Proofs.Codec
+open Vegeta.Model.GobFrame Vegeta.Model.GobValue Vegeta.Proofs.Gob
 
 /-- a zone offset `MarshalJSON` can print: whole minutes, less than a day -/
-abbrev Zone := { z : Int // z.natAbs < 1440 }
+abbrev JZone := { z : Int // z.natAbs < 1440 }
 
 /-- the modelled formats: CSV, and JSON written with the `time.Time`s in a given zone (a JSON step
 may use a different zone each time: after a CSV step the times are local, after a JSON step they
 carry the offset that was read) -/
 inductive Fmt where
   | csv : Fmt
-  | json : Zone → Fmt
+  | json : JZone → Fmt
 
 /-- all `Decode` calls on a stream in the given format: the results and how the stream ended -/
 def decodeStream : Fmt → Bytes → List Result × Term
@@ -199,6 +200,224 @@ theorem chain_preserves_csv_json (chain : List Fmt) (f0 : Fmt) (rs : List Result
       cases t with
       | eof => simp only [Option.some.injEq] at h3; rw [h3]
       | err => cases h3
+
+/-! ### all three formats: gob, CSV, JSON -/
+
+/-- a zone `Time.MarshalBinary` accepts (gob sends a `time.Time` through it) -/
+abbrev GZone := { z : Zone // ZoneOK z }
+
+/-- the three formats of `vegeta encode`; a gob or JSON step may carry the times in any zone -/
+inductive AnyFmt where
+  | gob : GZone → AnyFmt
+  | csv : AnyFmt
+  | json : JZone → AnyFmt
+
+def decodeAny : AnyFmt → Bytes → List Result × Term
+  | .gob _, s => decodeGob s
+  | .csv, s => decodeCSV s
+  | .json _, s => decodeJSON s
+
+/-- the codec family of the model for all three formats (conventions as for `resultCodecs`) -/
+def allCodecs : Codecs AnyFmt Result (Option Bytes) where
+  enc f rs := match f with
+    | .gob z => encodeGobAll z.val rs
+    | .csv => some (encodeCSVAll rs)
+    | .json z => encodeJSONAll z.val rs
+  dec f s := match s with
+    | none => none
+    | some b => match decodeAny f b with
+      | (out, .eof) => some out
+      | (_, .err) => none
+
+/-- **the common domain of all three codecs**: representable in CSV and in JSON, and — gob's only
+own restriction — the gob value message stays below gob's size limit (2^33 bytes) in every zone.
+(`ReprGobResult`'s other clauses, numeric ranges and distinct header keys, follow from `ReprBoth`.) -/
+def ReprAll (r : Result) : Prop := ReprBoth r ∧ ∀ z, ReprGobResult z r
+
+theorem aux_resEqv_gobDecoded (r : Result) : ResEqv r (gobDecoded r) := by
+  refine ⟨rfl, rfl, rfl, rfl, rfl, rfl, rfl, rfl, ?_, rfl, rfl, aux_hdrEqv_refl _⟩
+  simp only [gobDecoded]
+  split
+  · rename_i h; simpa using h.symm
+  · rfl
+
+/-- closure of `ReprBoth` under the gob decoder (an empty body comes back nil; nothing else changes) -/
+theorem aux_reprBoth_gobDecoded (r : Result) (hr : ReprBoth r) : ReprBoth (gobDecoded r) := by
+  obtain ⟨hc, hj⟩ := hr
+  have hnum : ReprNumbers (gobDecoded r) :=
+    ⟨hc.num.seq, hc.num.code, hc.num.ts0, hc.num.ts1, hc.num.latency, hc.num.bytesOut, hc.num.bytesIn⟩
+  constructor
+  · refine { num := hnum, attack := hc.attack, error := hc.error, method := hc.method, url := hc.url,
+             body := ?_, headers := hc.headers }
+    intro x hx
+    simp only [gobDecoded] at hx
+    split at hx
+    · simp at hx
+    · exact hc.body x hx
+  · refine { num := hnum, attack := hj.attack, error := hj.error, method := hj.method, url := hj.url,
+             body := ?_, headers := hj.headers }
+    intro b hb x hx
+    simp only [gobDecoded] at hb
+    split at hb
+    · cases hb
+    · exact hj.body b hb x hx
+
+/-- the length of the field part of a gob value depends only on the lengths of the field payloads -/
+theorem aux_encFields_len : ∀ (fs fs' : List (Option Bytes)) (gap : Nat),
+    fs.map (·.map List.length) = fs'.map (·.map List.length) →
+    (encFields gap fs).length = (encFields gap fs').length := by
+  intro fs
+  induction fs with
+  | nil =>
+    intro fs' gap h
+    cases fs' with
+    | nil => rfl
+    | cons a as => simp at h
+  | cons f fs ih =>
+    intro fs' gap h
+    cases fs' with
+    | nil => simp at h
+    | cons f' fs' =>
+      simp only [List.map_cons, List.cons.injEq] at h
+      obtain ⟨h1, h2⟩ := h
+      cases f with
+      | none =>
+        cases f' with
+        | none => simp only [encFields]; exact ih fs' _ h2
+        | some p' => simp at h1
+      | some p =>
+        cases f' with
+        | none => simp at h1
+        | some p' =>
+          simp only [Option.map_some, Option.some.injEq] at h1
+          simp only [encFields, List.length_append, h1, ih fs' 1 h2]
+
+theorem aux_gHeader_len (h1 h2 : Header) (hp : h1.Perm h2) : (gHeader h1).length = (gHeader h2).length := by
+  simp only [gHeader, List.length_append, hp.length_eq]
+  exact congrArg _ (hp.flatMap_right _).length_eq
+
+/-- equivalent results have gob value messages of the same length (in every zone), so gob's size
+clause is invariant along a chain -/
+theorem aux_payload_len (z : Zone) (a b : Result) (h : ResEqv a b) :
+    (valuePayload z a).map List.length = (valuePayload z b).map List.length := by
+  obtain ⟨a1, a2, a3, a4, a5, a6, a7, a8, a9, a10, a11, a12⟩ := h
+  have hh : (a.headers.map gHeader).map List.length = (b.headers.map gHeader).map List.length := by
+    cases ha : a.headers with
+    | none =>
+      cases hb : b.headers with
+      | none => rfl
+      | some h' => rw [ha, hb] at a12; exact a12.elim
+    | some h =>
+      cases hb : b.headers with
+      | none => rw [ha, hb] at a12; exact a12.elim
+      | some h' =>
+        rw [ha, hb] at a12
+        simp only [Option.map_some, Option.some.injEq]
+        exact aux_gHeader_len h h' a12
+  unfold valuePayload fieldPayloads
+  simp only [← a1, ← a2, ← a3, ← a4, ← a5, ← a6, ← a7, ← a8, ← a9, ← a10, ← a11]
+  cases (if a.timestamp = zeroTime ∧ z = Zone.utc then some none
+      else (timeBinary z a.timestamp).map (fun b => some (gBytes b)) : Option (Option Bytes)) with
+  | none => rfl
+  | some tf =>
+    simp only [Option.map_some, List.length_cons, Option.some.injEq, Nat.add_right_cancel_iff]
+    apply aux_encFields_len
+    simp only [List.map_cons, List.map_nil, hh]
+
+/-- `ReprAll` is closed under the chain equivalence (given `ReprBoth` of the new result): what any
+of the three decoders returns is again accepted by any of the three encoders -/
+theorem aux_reprAll_of_eqv (a b : Result) (ha : ReprAll a) (h : ResEqv a b) (hb : ReprBoth b) : ReprAll b := by
+  refine ⟨hb, fun z => ?_⟩
+  refine { num := hb.1.num, headers := fun h' hh => (hb.2.headers h' hh).1, size := ?_ }
+  intro p hp
+  have hl := aux_payload_len z a b h
+  rw [hp] at hl
+  cases hpa : valuePayload z a with
+  | none => rw [hpa] at hl; cases hl
+  | some pa =>
+    rw [hpa] at hl
+    simp only [Option.map_some, Option.some.injEq] at hl
+    rw [← hl]
+    exact (ha.2 z).size pa hpa
+
+theorem aux_seqEq_map_gobDecoded (rs : List Result) : SeqEq ResEqv rs (rs.map gobDecoded) := by
+  induction rs with
+  | nil => exact SeqEq.nil
+  | cons r rs ih => exact SeqEq.cons (aux_resEqv_gobDecoded r) ih
+
+/-- **The per-format round trips hold for all three modelled codecs** on the common domain `ReprAll`
+(C07's `gob_roundtrip_explicit`, `csv_roundtrip_explicit`, `json_roundtrip`), and the domain is
+closed under what each decoder returns (gob: empty body → nil; CSV: nil body → empty, header keys
+sorted; JSON: unchanged). -/
+theorem roundTrips_all_formats :
+    RoundTrips allCodecs ResEqv (fun rs => ∀ r ∈ rs, ReprAll r) where
+  refl := aux_resEqv_refl
+  trans := aux_resEqv_trans
+  roundTrip := by
+    intro f rs hd
+    cases f with
+    | gob z =>
+      obtain ⟨s, hs, hdec⟩ := decodeGob_encodeGobAll z.val rs z.property (fun r hr => (hd r hr).2 z.val)
+      refine ⟨rs.map gobDecoded, ?_, aux_seqEq_map_gobDecoded rs, ?_⟩
+      · simp only [allCodecs, hs, decodeAny, hdec]
+      · intro r hr
+        obtain ⟨r0, h0, rfl⟩ := List.mem_map.mp hr
+        exact aux_reprAll_of_eqv r0 _ (hd r0 h0) (aux_resEqv_gobDecoded r0) (aux_reprBoth_gobDecoded r0 (hd r0 h0).1)
+    | csv =>
+      refine ⟨rs.map csvDecoded, ?_, aux_seqEq_map_csvDecoded rs, ?_⟩
+      · simp only [allCodecs, decodeAny, decodeCSV_encodeCSVAll rs (fun r hr => (hd r hr).1.1)]
+      · intro r hr
+        obtain ⟨r0, h0, rfl⟩ := List.mem_map.mp hr
+        exact aux_reprAll_of_eqv r0 _ (hd r0 h0) (aux_resEqv_csvDecoded r0) (aux_reprBoth_csvDecoded r0 (hd r0 h0).1)
+    | json z =>
+      obtain ⟨s, hs, hdec⟩ := Vegeta.Props.C07.json_roundtrip z.val z.property rs (fun r hr => (hd r hr).1.2)
+      refine ⟨rs, ?_, aux_seqEq_refl ResEqv aux_resEqv_refl rs, hd⟩
+      simp only [allCodecs, hs, decodeAny, hdec]
+
+/-- **"Re-encoding a result file through any chain of formats with the encode command produces a
+stream that decodes to the original sequence"** — for all three formats, with no codec hypothesis
+left: for every chain over {gob, csv, json} of ANY length (gob and JSON steps in any zone), every
+start format and every result list in the common domain `ReprAll`, every encoder along the chain
+succeeds, every intermediate stream decodes, and the final stream — decoded in the last format of
+the chain — yields a list `equalAll` (pointwise `Result.Equal`) to the original and then `io.EOF`.
+(What is not part of this statement: that `DecoderFor` picks, for each intermediate stream, the
+decoder of the format it was written in — see `sniff_preserves_stream`, `detect_selects_own_format`
+and the first-byte theorems below.) -/
+theorem chain_preserves_all_formats (chain : List AnyFmt) (f0 : AnyFmt) (rs : List Result)
+    (hd : ∀ r ∈ rs, ReprAll r) :
+    ∃ fl s out, allCodecs.runChain f0 (allCodecs.enc f0 rs) chain = some (fl, some s) ∧
+      fl = chain.getLast?.getD f0 ∧ decodeAny fl s = (out, .eof) ∧ equalAll out rs = true := by
+  obtain ⟨fl, s, out, h1, h2, h3, h4⟩ :=
+    chain_preserves allCodecs ResEqv (fun rs => ∀ r ∈ rs, ReprAll r) roundTrips_all_formats chain f0 rs hd
+  cases s with
+  | none => simp [allCodecs] at h3
+  | some b =>
+    refine ⟨fl, b, out, h1, h2, ?_, aux_seqEq_equalAll rs out (fun r hr => (hd r hr).1) h4⟩
+    simp only [allCodecs] at h3
+    cases hds : decodeAny fl b with
+    | mk o t =>
+      rw [hds] at h3
+      cases t with
+      | eof => simp only [Option.some.injEq] at h3; rw [h3]
+      | err => cases h3
+
+/-! ### first bytes of the encoders' images (why the detection order gob → JSON → CSV is safe) -/
+
+set_option maxRecDepth 20000 in
+/-- **A non-empty gob stream written by the encoder starts with the byte 0xFF**: its first message is
+the type definition of `Result`, 150 bytes long, so the stream opens with the two-byte count `FF 96`. -/
+theorem gob_stream_first_byte (z : Zone) (r : Result) (rs : List Result) (s : Bytes)
+    (h : encodeGobAll z (r :: rs) = some s) : ∃ tl, s = 255 :: 150 :: tl := by
+  simp only [encodeGobAll] at h
+  cases hv : valueFrames z (r :: rs) with
+  | none => rw [hv] at h; cases h
+  | some ps =>
+    rw [hv] at h
+    simp only [Option.map_some, Option.some.injEq] at h
+    subst h
+    have e : encodeFrame preResult = 255 :: 150 :: preResult := rfl
+    refine ⟨preResult ++ encodeFrames ([preTime, preHeader, preStrings] ++ ps), ?_⟩
+    simp only [preFrames, encodeFrames, List.cons_append, List.flatMap_cons, e, List.nil_append]
 
 /-! ### non-vacuity -/
 
